@@ -43,10 +43,13 @@ pub struct Action {
     /// is and the connection closed
     #[serde(default)]
     pub declared_len: Option<u64>,
+    /// add a `Location:` header pointing back at the same URL (with a 3xx status: a redirect loop)
+    #[serde(default)]
+    pub redirect_self: bool,
 }
 impl Default for Action {
     fn default() -> Self {
-        Action { status: 206, body: Body::Range, cut_after: None, drop: false, pieces: vec![], chunked: false, pace_us: 0, declared_len: None }
+        Action { status: 206, body: Body::Range, cut_after: None, drop: false, pieces: vec![], chunked: false, pace_us: 0, declared_len: None, redirect_self: false }
     }
 }
 
@@ -187,6 +190,11 @@ fn handle(mut s: TcpStream, data: &Arc<Vec<u8>>, script: &Script, index: usize, 
     let status = if action.status == 206 && action.body == Body::Range { status } else { action.status };
     let reason = match status {
         200 => "OK",
+        204 => "No Content",
+        301 => "Moved Permanently",
+        302 => "Found",
+        400 => "Bad Request",
+        503 => "Service Unavailable",
         206 => "Partial Content",
         404 => "Not Found",
         416 => "Range Not Satisfiable",
@@ -194,6 +202,9 @@ fn handle(mut s: TcpStream, data: &Arc<Vec<u8>>, script: &Script, index: usize, 
         _ => "Status",
     };
     let mut head = format!("HTTP/1.1 {} {}\r\nConnection: close\r\nContent-Type: application/octet-stream\r\n", status, reason);
+    if action.redirect_self {
+        head.push_str("Location: /archive.cba\r\n");
+    }
     if action.chunked {
         head.push_str("Transfer-Encoding: chunked\r\n\r\n");
     } else {
